@@ -10,16 +10,16 @@ NOTE_COMMON = ('trusted: pyvc VC generator (kept honest by per-path CPython cros
                'contracts (stubs) listed in evidence.coverage.trusted_base; ')
 
 CLAIMED = {
- 'C01': dict(text='Proof that _recv_packet hands a payload to a handler only after exactly one decrypt_packet call with the '
-                  'RFC 4253 framing and the live receive counter, uses only its result, raises MACError otherwise, admits no '
-                  'ignorable message before the first keys under strict kex; _recv_data answers a failed step with DISCONNECT + '
-                  '_force_close; transport end without DISCONNECT is an error; the four decrypt_packet / encrypt_packet classes, '
-                  '_HMAC/_UMAC/_NullMAC, GCMCipher (IV advanced once per call) and ChachaCipher/poly1305 check the tag over the '
-                  'right bytes before any plaintext; send_newkeys letters/directions; strict kex exactly from the peer marker.',
+ 'C01': dict(text='Proof that _recv_packet delivers a payload only after exactly one decrypt_packet call on the RFC 4253 '
+                  'framing and the live receive counter, uses only its result, else MACError; no ignorable message before the first '
+                  'keys under strict kex; _recv_data answers a failed step with DISCONNECT and close; transport end without '
+                  'DISCONNECT is an error; the four decrypt/encrypt_packet classes, _HMAC/_UMAC/_NullMAC, GCMCipher (IV advanced '
+                  'once per call) and ChachaCipher/poly1305 check the tag first; send_newkeys letters/directions; strict kex '
+                  'enabled exactly from the peer marker and always offered by us (_get_extra_kex_algs, C03 _send_kexinit).',
              ref='4/C01, 9', note='MAC/AEAD unforgeability, compare_digest and the cryptography AES-GCM / Poly1305 / hmac / '
-                  'umac library contracts are trusted; MAC table tag sizes are a data lemma (AST); strict-kex 64-case native grid '
-                  'is a bounded stand-in (not proved); a hostile packet_length < blocksize-4 is excluded by requires; that a closed '
-                  'connection delivers nothing is C10; no recorded finding'),
+                  'umac library contracts are trusted; MAC table tag sizes are a data lemma (AST); GCMCipher class view read from '
+                  '__init__; strict-kex 64-case native grid is a bounded stand-in (not proved); a hostile packet_length < '
+                  'blocksize-4 is excluded by requires; that a closed connection delivers nothing is C10; no recorded finding'),
  'C02': dict(text='Proof on send_packet (4 block-size/header cases) of the RFC 4253 binary packet layout, MAC over the '
                   'pre-increment sequence number, the sequence rule incl. strict-kex reset at NEWKEYS, compression iff in effect '
                   'for the direction, queued xor emitted; the four encrypt_packet classes; Kex.compute_key equals the RFC 4253 7.2 '
@@ -30,12 +30,12 @@ CLAIMED = {
                   'asyncio done-callback are assumed; block sizes {1,8,16} (AST) and the 331-row cipher x MAC suite table '
                   '(evaluated natively, exhaustive, not SMT) are data lemmas; segmentation lemma: base and step solver-checked, '
                   'induction principle and handler refinement argued on paper; no recorded finding'),
- 'C03': dict(text='Proof that _choose_alg returns the first client-preferred common algorithm (raises iff disjoint); '
-                  '_recv_version keeps exactly the wire line; _process_kexinit in three regions consumes the packet completely, '
-                  'records the peer KEXINIT verbatim, takes every algorithm from the lists of its own direction, starts the kex '
-                  'once and skips only a wrong guess; choose_server_host_key; hash prefix and hash input layout, range/role/group '
-                  'checks, verify-before-NEWKEYS and complete consumption of every kex_dh (DH, ECDH, hybrid, gex) and kex_rsa '
-                  'message; transcript-injectivity lemma.',
+ 'C03': dict(text='Proof that _choose_alg returns the first client-preferred common algorithm; _recv_version keeps the wire '
+                  'line; _process_kexinit in three regions (parse ends at the last top-level packet read, so a removed end check '
+                  'fails) consumes the packet completely, records the peer KEXINIT verbatim, takes every algorithm from the lists '
+                  'of its own direction, starts the kex once; choose_server_host_key; hash prefix and hash input layout, '
+                  'range/role/group checks, verify-before-NEWKEYS and complete consumption of every kex_dh (DH, ECDH, hybrid, gex) '
+                  'and kex_rsa message (secret encrypted to the K_T of the packet); transcript-injectivity lemma.',
              ref='4/C03, 9', note='hash/signature/DH primitives, MPInt, NameList uninterpreted; GSS kex not verified; edits '
                   'that leave the hash input unchanged (non-canonical mpints, banner lines, signature re-encodings) are outside; '
                   'message order is C06; native _process_kexinit run on 300 (thorough 1500) random name-lists is a bounded stand-in '
@@ -51,11 +51,11 @@ CLAIMED = {
                   'AST scans; native lookup-purity test (3 cases) is a bounded stand-in (not proved); ordering before credentials '
                   'rests on C03/C06 contracts; no recorded finding'),
  'C05': dict(text='Proof on the server authentication code: every _Server*Auth handler answers once, last, grants only '
-                  'where its credential predicate holds for its own live user, a valid credential is admitted; '
-                  '_process_userauth_request, _finish_userauth, send_userauth_success/_failure, reload_config keep invariants J '
-                  '(binding), C (configuration) and guarantee G; validators accept only a signature by the authorised key over '
-                  'session id + this request; Auth.cancel/create_task; callback forwarders, *_auth_supported; channel enforcement '
-                  'of command/pty/environment; client accepts SUCCESS only with a request outstanding.',
+                  'where its credential predicate holds for its own live user, admits a valid credential; '
+                  '_process_userauth_request, _finish_userauth, send_userauth_success/_failure, reload_config keep invariants J, C '
+                  'and guarantee G; validators accept only a signature by the authorised key over session id + request; '
+                  'Auth.cancel/create_task; callback forwarders; channel enforcement of command/pty/environment and (C20 '
+                  'direct-tcpip gate re-registered) permitopen host and port; client accepts SUCCESS only when expected.',
              ref='4/C05, 9', note='awaits are cut points (rely/guarantee); asyncio task rules, application callbacks, '
                   'key.verify, cert.validate, X.509 chains, SASLprep and the GSS context are assumed contracts; writers of the auth '
                   'state, grant and look-up call sites by four AST scans; C04 host-key contracts used as callee stubs; known '
@@ -70,41 +70,41 @@ CLAIMED = {
                   'the __init__ / _cleanup writers of the phase fields are not under contract; strict-kex 64-case native grid is a '
                   'bounded stand-in (not proved); no recorded finding'),
  'C07': dict(text='Proof on the channel buffer code: written bytes join the end of flat(emitted) ++ flat(_send_buf) once '
-                  'with their datatype, every packet cut conserves the stream, EOF leaves only when pending and drained, once; '
-                  'received payloads are accepted unaltered only in state open, delivered FIFO with nothing lost or duplicated, '
-                  'eof_received only with an empty buffer and at most once, decoder flushed before EOF/close; '
-                  'pause/resume/start/discard transitions, set_encoding, add/remove_channel, dispatch by recipient number; the C19 '
-                  'stream readers (read, readuntil, readline) re-registered.',
+                  'with their datatype, EOF leaves only when pending and drained, once; received payloads are accepted unaltered '
+                  'only in state open, delivered FIFO with nothing lost or duplicated, the receive window charged and replenished '
+                  'below half whatever the send side state, eof_received only with an empty buffer and once, decoder flushed before '
+                  'EOF/close; set_encoding, add/remove_channel, dispatch by recipient number; communicate waits with the limit '
+                  'lifted and reading enabled; C19 readers (read, readuntil incl. pattern0, readline) re-registered.',
              ref='4/C07, 9', note='codecs incremental coders trusted; session callbacks may pause reading but do not raise or '
                   're-enter otherwise; TunTap framing and a full channel table out of scope; the claim ends at '
                   'session.data_received (C19 above, C02/C11 below); known finding F-C07-1 recorded (pending EOF forgotten when '
                   'CLOSE arrives while paused)'),
- 'C08': dict(text='Proof on the channel buffer code: every DATA/EXTENDED_DATA packet emitted by _flush_send_buf has 1 <= '
-                  'len <= min(peer window, max packet size), the window never goes negative, the flush loop makes progress and '
-                  'loses nothing, window adjusts re-flush, the writer is resumed at or below low water; data beyond the window is a '
-                  'ProtocolError, a delivery replenishes the window at half, buffered bytes stay within the advertised window; '
-                  'process_open / process_open_confirmation and the connection open handlers store exactly the limits of the '
-                  'packet, max packet size >= 1.',
+ 'C08': dict(text='Proof on the channel buffer code: every DATA packet emitted by _flush_send_buf has 1 <= len <= min(peer '
+                  'window, max packet size), the window never goes negative, the flush loop makes progress and loses nothing, '
+                  'window adjusts re-flush and are accepted while the peer still reads (recv state open, eof_pending, eof), the '
+                  'writer is resumed at or below low water; data beyond the window is a ProtocolError, a delivery replenishes the '
+                  'window at half, buffered bytes stay within the advertised window; process_open / process_open_confirmation and '
+                  'the connection open handlers store exactly the limits of the packet, max packet size >= 1.',
              ref='4/C08, 9', note='liveness across the network not decided (local progress only); session callbacks assumed '
                   'not to re-enter; total_bytes >= 0 by a solver-checked induction (induction principle trusted); known finding F4 '
                   'recorded (window charged on delivery: excess data accepted while reading is paused), the paused-path proofs are '
                   'conditional on it'),
- 'C09': dict(text='Proof of the safety core of orderly termination: channel / connection (incl. client and server '
-                  'overrides) / stream / process / SFTP client cleanup resolves every registered waiter, notifies session and owner '
-                  'exactly once and nothing after, is idempotent; _force_close, connection_lost, abort schedule exactly one cleanup '
-                  'iff still open; the close handshake schedules cleanup exactly when the receive side turns closed; waiters are '
-                  'registered where cleanup finds them and never after it; global and channel request queues answer in FIFO order; '
-                  'no reader parks once EOF is latched; drain never returns normally on a lost connection.',
+ 'C09': dict(text='Proof of the safety core of termination: channel / connection / stream / process / SFTP client cleanup '
+                  'resolves every registered waiter, notifies session and owner exactly once and last, is idempotent; _force_close, '
+                  'connection_lost, abort schedule exactly one cleanup iff still open; cleanup is scheduled exactly when the '
+                  'receive side turns closed; a pending EOF/CLOSE leaves once the send buffer is empty whatever the window, close() '
+                  'with nothing buffered sends CLOSE at once; waiters are registered where cleanup finds them; request queues '
+                  'answer FIFO; no reader parks once EOF is latched; drain never returns normally on a lost connection.',
              ref='4/C09, 9', note='liveness over the scheduler/network is not decided; asyncio Future/Event/call_soon are '
                   'assumed contracts; close()/cancel() of collaborators assumed not to raise; other _force_close call sites, SFTP '
                   'server cleanup and listener.py (C20) not covered; known finding F-C09-3 recorded (pending close/EOF left behind '
                   'when a flush raises in application context)'),
- 'C10': dict(text='Proof of termination variants and signals clauses on the code that consumes peer bytes: all 15 SSHPacket '
-                  'methods keep the representation invariant; the receive pump (_recv_version, _recv_pkthdr, _recv_packet, '
-                  '_recv_data) makes progress and an error means closed; _force_close, internal_error, _reap_task; transport '
-                  'handlers; all DER decoders raise only ASN1DecodeError; the while-packet loops consume input; editor line bound; '
-                  'SOCKS and X11 automata; validate_sshsig never raises; import_*_key and match_base64 raise only documented '
-                  'errors; server copy-data loop bounded by the data present; C08 channel-open and flush contracts cloned.',
+ 'C10': dict(text='Proof of termination variants and signals clauses on code consuming peer bytes: the 15 SSHPacket methods '
+                  'keep their invariant; the receive pump makes progress and an error means closed; _force_close, internal_error, '
+                  '_reap_task; transport handlers; a global response consumes exactly one waiter, the _cleanup waiter loop has a '
+                  'variant; DER decoders raise only ASN1DecodeError; the while-packet loops consume input; editor line bound; SOCKS '
+                  '(buffered bytes bounded) and X11 automata; validate_sshsig never raises; import_*_key and match_base64 raise '
+                  'only documented errors; server copy-data bounded by the data present; C08 open/flush contracts cloned.',
              ref='4/C10, 9', note='cost is claimed as iteration counts, not wall-clock; memory not bounded; indirect '
                   'handler/decoder calls go through the proved handler contracts; RecursionError is not modelled by the engine: '
                   'nested-SEQUENCE native probe (24 inputs) is a bounded stand-in (not proved); no recorded finding'),
@@ -148,15 +148,15 @@ CLAIMED = {
                   'out-of-range values only by the executed codec round trip: bounded stand-in (not proved); id uniqueness needs < '
                   '2^32 outstanding requests (precondition); no recorded finding'),
  'C15': dict(text='Proof of the FORMAT layer of key export/import: packet encoders vs SSHPacket getters incl. '
-                  'MPInt/get_mpint (over pow2/bitlen spec functions), rsa/dsa/ecdsa/eddsa SSH blob codecs, export_private_key / '
-                  'export_public_key / export_certificate shapes (labels, encryption decision, OpenSSH container, padding), '
-                  '_decode_openssh_private and decode_ssh_public_key acceptance conditions, text parsers on exporter-written '
-                  'families, the import dispatch layer (_decode_*, list readers, import_*_key raising only documented errors), '
-                  'PKCS#1/#8 structures for RSA/EC, RFC 1423 padding round trip, the PKCS#12 KDF block update.',
-             ref='4/C15, 9', note='key material (PyCA), bcrypt, PBES, ciphers, base64 and der_encode inside the exporters are '
-                  'assumed contracts; sk-* handlers assumed; hostile text is not covered by the parser contracts; base64 armour, '
-                  'MPInt value set, text-level export/import and DER round trips are bounded stand-ins (not proved); block sizes '
-                  'and wrap widths as data lemmas; no recorded finding'),
+                  'MPInt/get_mpint, rsa/dsa/ecdsa/eddsa blob codecs, export_private_key / export_public_key / export_certificate '
+                  'shapes (labels, encryption decision, OpenSSH container, padding; SPKI/PKCS#8 parameters omitted, NULL or value), '
+                  '_decode_openssh_private and decode_ssh_public_key acceptance, text parsers on exporter-written text, import '
+                  'dispatch (documented errors only), PKCS#1/#8 structures for RSA/EC, _ECKey.private_value, RFC 1423 padding, '
+                  'PKCS#12 KDF block update, _pbkdf1 == EVP_BytesToKey chain (keys <= 2 digests).',
+             ref='4/C15, 9', note='PyCA key material, bcrypt, PBES, ciphers, base64, der_encode inside the exporters and sk-* '
+                  'handlers are assumed contracts; hostile text is not covered by the parser contracts; base64 armour, MPInt value '
+                  'set, text-level export/import, _pbkdf1 vs a reference on real hashes and DER round trips are bounded stand-ins '
+                  '(not proved); block sizes and wrap widths as data lemmas; no recorded finding'),
  'C16': dict(text='Proof that SSHKey.verify never raises and accepts only String(alg)||rest with alg in the algorithm set '
                   'of this key class (sets never shared or mutated), sign emits the layout verify parses; per key type verify_ssh '
                   'consumes the whole blob, sign_ssh layout, __eq__ over all public parameters; certificate construct accepts only '
@@ -185,22 +185,22 @@ CLAIMED = {
              ref='4/C18, 9', note='shlex/= tokeniser, pattern matching, pathlib/glob and Match exec are not under contract; '
                   '15 comparisons with the real ssh -G on 150 (thorough 1500) generated configs are bounded stand-ins (not proved); '
                   'known findings F-C18-2, F-C18-3, F-C18-5, F-C18-7, F-C18-8, F-C18-9, F-C18-10 recorded'),
- 'C19': dict(text='Proof on the stream session buffer code: read(n)/readexactly/read-to-EOF, readuntil (literal and newline '
-                  'separators) and readline return the next units of the stream with nothing lost, duplicated or reordered, '
-                  'buffer-length accounting, no empty chunk left, flow-control invariant at every await and return; data_received / '
-                  'eof_received / connection_lost / exception_received append at the tail and wake readers; pause/resume; drain '
-                  'returns only when writable; SSHProcess data_received, feed_recv_buf, collect_output keep order and the list '
-                  'object; exit status/signal handlers; C07 _flush_recv_buf ordering clauses re-registered.',
-             ref='4/C19, 9', note='awaits are cut points with a rely (tail-append only, monotone flags); AnyStr instantiated '
-                  'at bytes; regex/list separators and str mode over all chunkings of streams of <= 5 (thorough 6) units are a '
-                  'bounded stand-in (not proved); cancellation (a cancelled read loses data), feed_recv_buf/collect_output racing a '
-                  'reader, exit-status ordering and environment progress are outside the claim; no recorded finding'),
- 'C20': dict(text='Proof of the permission gates (key/certificate permission and option tables, direct-tcpip / '
-                  'direct-streamlocal open, tcpip / streamlocal forward requests, listener registered iff success reply, no live '
-                  'listener displaced, cancel removes exactly that listener, X11 and agent), the relay invariant out ++ _inpbuf == '
-                  'in over SSHForwarder / SSHLocalForwarder (early data, EOF once, half-close, close closes both, back-pressure), '
-                  'the SOCKS4/4a/5 automaton (decode, progress, nothing parsed after close, request bytes never relayed), one reply '
-                  'per global request, listener close paths and bookkeeping of forward_* / create_server.',
+ 'C19': dict(text='Proof on the stream buffer code: read(n)/readexactly/read-to-EOF, readuntil (literal and newline '
+                  'separators; a compiled pattern without max length: conservation and search restart only) and readline return the '
+                  'next units of the stream with nothing lost, duplicated or reordered, buffer accounting, no empty chunk, '
+                  'flow-control invariant at every await and return; the receive callbacks append at the tail and wake readers; '
+                  'drain returns only when writable; SSHProcess data_received, feed_recv_buf, collect_output keep order; '
+                  'communicate keeps the invariant with the lifted limit; exit status/signal; C07 _flush_recv_buf re-registered.',
+             ref='4/C19, 9', note='awaits are cut points with a rely; AnyStr = bytes; regex/list separators (with and without '
+                  'max length) and str mode over all chunkings of streams of <= 5 (thorough 6) units (149312 cases) are a bounded '
+                  'stand-in (not proved); cancellation (a cancelled read loses data), feed_recv_buf/collect_output racing a reader, '
+                  'exit-status ordering and environment progress are outside the claim; no recorded finding'),
+ 'C20': dict(text='Proof of the permission gates (permission and option tables, direct-tcpip / streamlocal open, forward '
+                  'requests, listener registered iff success reply, no live listener displaced, cancel removes exactly it, X11 and '
+                  'agent, the nested tunnel_connection closures of forward_local_port(_to_path): a falsy plain or awaited '
+                  'accept_handler verdict opens nothing), the relay invariant out ++ _inpbuf == in over SSHForwarder / '
+                  'SSHLocalForwarder (early data, EOF once, half-close, close closes both), the SOCKS4/4a/5 automaton (progress, '
+                  'nothing parsed after close, request bytes never relayed), one reply per global request, listener bookkeeping.',
              ref='4/C20, 9', note='application callbacks, real sockets / create_server and ip_address abstract; the '
                   'no-suspension window after attaching a peer is partly assumed; the common _cleanup loop is C09, the other stored '
                   'restrictions C05; tun/tap has no gate in the code and no obligation; no bounded stand-in; no recorded finding'),
